@@ -28,7 +28,7 @@ IsFirst(seq, i) == \A j \in 1..(i - 1) : seq[j] # seq[i]
 RepeatMark(ts, ls, ss, p) == IF IsFirst(ts, p[1]) /\ IsFirst(ls, p[2]) /\ IsFirst(ss, p[3]) THEN 0 ELSE 500
 
 \* extra field names of the generators, in a fixed order (values of different fields differ)
-ExtraPool == <<"q0.005", "q0.01", "Tmax">>
+ExtraPool == <<"q0.005", "q0.01", "Tmax", "e0", "e1", "e2">>
 ExtraOrderBefore(f) == {ExtraPool[k] : k \in 1..(IndexIn(ExtraPool, f) - 1)}
 \* g = [ts, ls, ss, hasObs, mo, mf] ; j = owner (forecast offset) ; mo/mf = missing positions
 MkInput(g, j) ==
@@ -55,7 +55,11 @@ MkInputSmall(g, j) ==
      !.obs  = [p \in Positions(g.ts, g.ls, g.ss) |-> IF ~g.hasObs \/ p \in g.mo THEN NaN
                  ELSE LET c == Code(g.ts[p[1]], g.ls[p[2]], g.ss[p[3]]) IN R((3 * (c \div 100) + 5 * ((c \div 10) % 10) + 2 * (c % 10)) % 6)],
      !.fcst = [p \in Positions(g.ts, g.ls, g.ss) |-> IF p \in g.mf THEN NaN
-                 ELSE LET c == Code(g.ts[p[1]], g.ls[p[2]], g.ss[p[3]]) IN R(((2 * (c \div 100) + 3 * ((c \div 10) % 10) + 5 * (c % 10) + 2 * j) % 7) - 1)]]
+                 ELSE LET c == Code(g.ts[p[1]], g.ls[p[2]], g.ss[p[3]]) IN R(((2 * (c \div 100) + 3 * ((c \div 10) % 10) + 5 * (c % 10) + 2 * j) % 7) - 1)],
+     !.extra = IF "ex" \in DOMAIN g
+               THEN [f \in DOMAIN g.ex |-> [p \in Positions(g.ts, g.ls, g.ss) |-> IF p \in g.ex[f] THEN NaN
+                       ELSE LET c == Code(g.ts[p[1]], g.ls[p[2]], g.ss[p[3]]) IN R((4 * (c \div 100) + ((c \div 10) % 10) + 3 * (c % 10) + j + IndexIn(ExtraPool, f)) % 6)]]
+               ELSE [f \in {} |-> <<>>]]
 
 \* climatology forecast: "lin" keeps coordinates visible after subtraction, "small" has zeros for -C
 MkClim(g) ==
@@ -277,12 +281,18 @@ T15In2NoObs == [T15In2 EXCEPT !.hasObs = FALSE]
 T15In3 == [T15In2 EXCEPT !.ls = <<LeadPool[4], LeadPool[2], LeadPool[1], LeadPool[3]>>]        \* the same lead times as input 1, in another order
 TMenu == {<<R(12), "sum", "leadtime">>, <<R(24), "sum", "leadtime">>, <<R(25), "mean", "leadtime">>, <<R(13), "max", "leadtime">>,
           <<R(36), "range", "leadtime">>, <<R(7), "sum", "time">>, <<R(6), "min", "time">>}
+\* -T on ENSEMBLE MEMBERS (columns e0, e1, e2 as extra fields): every member series is pre-aggregated like obs and fcst, and the event
+\* probability of a threshold the files do not store is the fraction of the pre-aggregated members at or below it -- per input
+EnsIn(g) == [ts |-> g.ts, ls |-> g.ls, ss |-> g.ss, hasObs |-> g.hasObs, mo |-> {}, mf |-> {}, bump |-> 0, ex |-> ("e0" :> {} @@ "e1" :> {} @@ "e2" :> {})]
+UC15Ens(u) == {[inp |-> <<EnsIn(T15In1), EnsIn(T15In3)>>, clim |-> NoClimGen, opt |-> WithOpt(NoOptions, "T", t)]
+                 : t \in {<<R(13), "mean", "leadtime">>, <<R(25), "mean", "leadtime">>, <<R(7), "mean", "time">>, <<R(13), "max", "leadtime">>}}
 UC15T(u) == {[inp |-> i, clim |-> NoClimGen, opt |-> WithOpt(o, "T", t)]
                : i \in {<<T15In1, T15In2>>, <<T15In1>>, <<T15In1, T15In2NoObs>>, <<T15In1, T15In3>>}, t \in TMenu,
                  o \in {NoOptions, WithOpt(NoOptions, "o", {0, 36}), WithOpt(NoOptions, "o", {12, 36}), WithOpt(NoOptions, "t", {TimePool[2]})}}
 Universe(u) ==
   CASE Family = "C01Full"   -> UC01Full(0)
     [] Family = "C15T"      -> UC15T(0)
+    [] Family = "C15Ens"    -> UC15Ens(0)
     [] Family = "C01Quick"  -> UC01Quick(0)
     [] Family = "C01NoObs"  -> UC01NoObs(0) \cup UC01NoObs1(0)
     [] Family = "C01Three"  -> UC01Three(0)
